@@ -78,7 +78,13 @@ def main():
     c.oblige("harness builds against /repo working tree", hb is not None, err)
     tied = source_tie(c)
     if tied:
-        c.lean_obligations(THEOREMS + SRC_THEOREMS)
+        if not c.lean_obligations(THEOREMS + SRC_THEOREMS) and not c.obligations[-len(THEOREMS + SRC_THEOREMS) - 2][1]:
+            # the build broke: say whether it is the source-equivalence layer (names the method whose
+            # translated body no longer computes the model's function) or the refinement layer
+            for mod in ("Cog.OMap.Refine", "Cog.OMap.SrcEquiv"):
+                ok, out = lake_build((mod,))
+                c.oblige("diagnostic: module %s builds" % mod, ok,
+                         "\n".join(l for l in out.split("\n") if "error" in l)[:1500] if not ok else "")
     else:
         # Cog.Gen.OMapSrc is stale: the source theorems are not discharged for this tree; the
         # correspondence streams below are the search for a concrete failing op sequence
